@@ -52,6 +52,26 @@ type Waiter struct {
 	Since int64  // driver bookkeeping
 	Tag   string // driver bookkeeping
 	MID   uint32 // id of the wanted lock (assigned at first use within the run)
+	pcs   [40]uintptr
+	npcs  int
+}
+
+// StackHas reports whether any frame of the parked goroutine (up to 40 frames above the lock call) is a function whose
+// name contains sub. Resolved lazily: only classification of an already found violation asks.
+func (w *Waiter) StackHas(sub string) bool {
+	if w.npcs == 0 {
+		return false
+	}
+	frames := runtime.CallersFrames(w.pcs[:w.npcs])
+	for {
+		f, more := frames.Next()
+		if strings.Contains(f.Function, sub) {
+			return true
+		}
+		if !more {
+			return false
+		}
+	}
 }
 
 // Scheduler owns all lock acquisitions of one simulated run.
@@ -170,6 +190,7 @@ func (s *Scheduler) park(w *Waiter) {
 	if stopped {
 		<-s.never
 	}
+	w.npcs = runtime.Callers(2, w.pcs[:])
 	w.Sig = signature()
 	w.ch = make(chan struct{})
 	gmu.Lock()
